@@ -418,7 +418,7 @@ func init() {
 		Bubble: true,
 		Cases: func(tier string) int {
 			if tier == "thorough" {
-				return 5000
+				return 20000
 			}
 
 			return 600
